@@ -886,3 +886,41 @@ var concParseProp = h.Define(P, "concparse", func(t *rapid.T) ConcParse {
 }, runConcParse)
 
 func TestConcurrentParse(t *testing.T) { concParseProp.Check(t) }
+
+// TestLongSelectorsInDocuments: policies whose selector TEXT is long - 100 to 70 000 bytes, around every power of two
+// on the way (dotted fields, quoted fields, indexes; prefixes of such texts are valid selectors themselves) - read from
+// an IPLD document and from DAG-JSON and written back: nothing of the text is dropped, whatever its length; a document
+// the constructors would refuse for its length is refused, not shortened.
+func TestLongSelectorsInDocuments(t *testing.T) {
+	var lens []int
+	for k := 7; k <= 16; k++ {
+		lens = append(lens, 1<<k-1, 1<<k, 1<<k+1)
+	}
+	lens = append(lens, 100, 1000, 5000, 10000, 70000)
+	n := 0
+	for _, target := range lens {
+		for shape := 0; shape < 3; shape++ {
+			var s sel.Sel
+			size := 0
+			for i := 0; size < target; i++ {
+				var g sel.Seg
+				switch shape {
+				case 0:
+					g = sel.Seg{Kind: "field", Name: "a"} // ".a" = 2 bytes: every even prefix is a selector
+				case 1:
+					g = sel.Seg{Kind: "qfield", Name: "k k"}
+				default:
+					g = sel.Seg{Kind: "index", Idx: int64(i % 10)}
+				}
+				s = append(s, g)
+				size += len(g.Text())
+			}
+			one := val.Int(1)
+			for _, p := range []pol.Policy{{{Op: "==", Sel: s, Lit: &one}}, {{Op: "any", Sel: s, Sub: []pol.Stmt{{Op: "==", Sel: sel.Sel{{Kind: "id"}}, Lit: &one}}}}, {{Op: "not", Sub: []pol.Stmt{{Op: "like", Sel: s, Pat: "*"}}}}} {
+				polProp.One(t, PolCase{Pol: p, Data: []val.V{val.Map()}})
+				n++
+			}
+		}
+	}
+	P.SetExtra("long_selector_documents", n)
+}
